@@ -688,6 +688,33 @@ package calendar
 //@ # ================================================================ C08: every exported zero-argument accessor is total
 //@ # Safety-only contracts: under the receiver's type invariant the method returns without panicking - every index is
 //@ # in range, no nil dereference, no failing type assertion, no division by zero, every callee precondition holds.
+//@ # T14 every table lists month 1 of its own lunar year (the almanac's "how many ..." counters start from it)
+//@ axiom monthOneAx(y int) [C08 C06]
+//@   requires 0 <= y && y <= 9999
+//@   ensures exists(0, 14, func(i int) bool { return mY(y, i) == y && mM(y, i) == 1 && jdn(y, 1, 1) <= mF(y, i) && mF(y, i) <= jdn(y, 12, 31) })
+//@   domain y 0 9999
+//@   checked_by tables
+
+//@ func (lunarYear *LunarYear) getZaoByGan(index int, name string) string [C08]
+//@   requires 1 <= lunarYear.year && lunarYear.year <= 9998 && 0 <= index && index <= 9
+//@   use monthOneAx(lunarYear.year)
+//@   use tableAx(lunarYear.year)
+//@   use uniqueAx(lunarYear.year)
+//@   use yearOfDate(lunarYear.year, 1, 1)
+//@   use yearOfDate(lunarYear.year, 12, 31)
+//@   use_if yOfMono(jdn(lunarYear.year, 1, 1), mF(lunarYear.year, k)) for k in 0..14
+//@   use_if yOfMono(mF(lunarYear.year, k), jdn(lunarYear.year, 12, 31)) for k in 0..14
+
+//@ func (lunarYear *LunarYear) getZaoByZhi(index int, name string) string [C08]
+//@   requires 1 <= lunarYear.year && lunarYear.year <= 9998 && 0 <= index && index <= 11
+//@   use monthOneAx(lunarYear.year)
+//@   use tableAx(lunarYear.year)
+//@   use uniqueAx(lunarYear.year)
+//@   use yearOfDate(lunarYear.year, 1, 1)
+//@   use yearOfDate(lunarYear.year, 12, 31)
+//@   use_if yOfMono(jdn(lunarYear.year, 1, 1), mF(lunarYear.year, k)) for k in 0..14
+//@   use_if yOfMono(mF(lunarYear.year, k), jdn(lunarYear.year, 12, 31)) for k in 0..14
+
 //@ # the eight-character object is created on first use and kept; the memo field is touched nowhere else (structural scan)
 //@ func (lunar *Lunar) GetEightChar() *EightChar [C08 C11]
 //@   memo lunar.eightChar
@@ -706,7 +733,8 @@ package calendar
 //@ sweep XiaoYun: self.lunar != nil && self.daYun != nil && 0 <= self.index && self.index <= 9 && 0 <= self.daYun.index && self.daYun.index <= 9 && 1 <= self.daYun.startAge && self.daYun.startAge <= 200 && self.lunar.solar.year <= 9999 && modf(self.lunar.timeGanIndex, 2) == modf(self.lunar.timeZhiIndex, 2) [C08]
 //@ sweep Tao: self.lunar != nil [C08]
 //@ sweep Foto: self.lunar != nil [C08]
-//@ sweep Lunar LunarYear LunarMonth LunarTime EightChar NineStar JieQi Fu ShuJiu TaoFestival FotoFestival [C08]
+//@ sweep LunarYear: 1 <= self.year && self.year <= 9998 [C08]
+//@ sweep Lunar LunarMonth LunarTime EightChar NineStar JieQi Fu ShuJiu TaoFestival FotoFestival [C08]
 
 //@ # the Yang Gong taboo day predicate is total (it walks the day's festival list)
 //@ ghost func fotoYangGongTotal(f *Foto) [C08 C17]
